@@ -23,7 +23,7 @@ func (b *BPM) UnmarshalYAML(value *yaml.Node) error {
 		return err
 	}
 	*b = BPM(u)
-	return nil
+	return b.validate()
 }
 
 func (b BPM) validate() error {
